@@ -178,6 +178,13 @@ def _direct(ift, kl, o, op, rng):
         if p.notes:
             return ("contract", "mode %s: %s" % (MODE_NAME[mode], p.notes[0]))
     tol = 1e-10 if kl.tol is None else max(kl.tol, 1e-12)
+    # a singular operator (e.g. two diagonals whose difference has a zero entry) has no inverse: its
+    # advertised inverse modes return inf/nan and are not judged
+    if 1 in pr and (pr[1].R is not None or pr[1].r is not None):
+        Mt = pr[1].R if pr[1].R is not None else pr[1].r
+        if Mt.shape[0] == Mt.shape[1] and Mt.size and np.all(np.isfinite(Mt)) and np.linalg.matrix_rank(Mt) < Mt.shape[0]:
+            pr = {m: p for m, p in pr.items() if m in (1, 2) or
+                  all(np.all(np.isfinite(a)) for a in (p.R, p.r) if a is not None)}
     decl = kl.decl(o["cfg"])
     if decl is not None:
         msg = check_decl(ift, op, decl)
